@@ -3,6 +3,11 @@
 import sys, os, importlib
 sys.path.insert(0, os.path.dirname(os.path.abspath(__file__)))
 rc = 0
-for name in ():
-    pass
+sys.path.insert(0, os.path.join(os.path.dirname(os.path.abspath(__file__)), 'translate'))
+import py2lean
+for g in ('options',):
+    try:
+        getattr(py2lean, 'gen_' + g)()
+    except Exception as e:
+        print('translate %s: %s' % (g, e)); rc = 1
 sys.exit(rc)
